@@ -300,6 +300,13 @@ func init() {
 	strIntrinsic("strings.ToLower", func(a []value) value {
 		s := bytesOf(a[0])
 		out := make([]value, len(s))
+		for _, c := range s {
+			if x, ok := c.(uint8); ok && x >= 0x80 {
+				// Unicode case mapping can change the byte length (U+212A -> k);
+				// the byte-wise model is only valid for ASCII
+				panic(unsupported{"strings.ToLower of a string mixing symbolic bytes with non-ASCII bytes"})
+			}
+		}
 		for i, c := range s {
 			out[i] = lowerByte(c)
 		}
